@@ -728,13 +728,19 @@ def gen(ctx):
     # structured sweep first: every algorithm × a few shapes
     total = ctx.n(64, 1200)
     k = 0
-    shapes = ["eps-boundary", "front", "ties", "chain", "near-incomparable", "random"]
+    shapes = ["ties", "front", "eps-boundary", "chain", "near-incomparable", "random"]
     for alg in ALL_ALGS:
-        for shape in shapes[: (2 if ctx.tier == "quick" else 6)]:
+        for si, shape in enumerate(shapes[: (3 if ctx.tier == "quick" else 6)]):
             if k >= total:
                 return
             if (k % ctx.nworkers) == ctx.worker or ctx.tier == "quick":
-                yield gen_case(rng, ctx.tier, alg, shape)
+                case = gen_case(rng, ctx.tier, alg, shape)
+                if alg == "Auer":
+                    # uniform widths (exact-rule replay applies) on even shapes, empirical β on odd ones
+                    case["empirical"] = bool(si % 2)
+                    if case["adv"]["mode"] == "noise":
+                        case["adv"]["mode"] = "centered"
+                yield case
             k += 1
     while k < total:
         if rng.random() < 0.2:
